@@ -483,7 +483,11 @@ class PolygonTensor(PolytopeTensor):
                 other = np.broadcast_to(other.array, other_shape)
                 s = other.shape[:-1] + (1, other.shape[-1])
                 other = np.delete(other, np.ravel_multi_index((*tuple(np.indices(s[:-1])), i), s))
-                other = PointCollection(other.reshape(s[:-2] + (-1,)), copy=False)
+                other = other.reshape(s[:-2] + (-1,))
+                # only the projections of coplanar points matter, a point that is not in the plane can even be projected to
+                # the zero vector
+                other[~coplanar] = np.eye(self.dim, dtype=other.dtype)[-1]
+                other = PointCollection(other, copy=False)
 
             # TODO: only test coplanar points
             return coplanar & PolygonCollection.from_array(arr).contains(other)
